@@ -5,7 +5,7 @@
    [clean] the complement of the recorded defect classes of the implementation (each has a
            `..._refuted` witness in Examples.v and a key in /verif/KNOWN_FINDINGS):
              * switch fall-through: a clause other than the last whose body can run off its end
-               (syntactically: does not end in break/continue/return) — includes the empty
+               (syntactically: does not end in break/continue/return/throw) — includes the empty
                `case 1: case 2:` grouping and a non-final `default`;
              * `static` at the top level of the script (the main context has no static store).
    No proofs in this file. *)
@@ -18,7 +18,7 @@ Open Scope string_scope.
 Fixpoint ends_jump (s : stmt) : bool :=
   match s with
   | SSeq _ b => ends_jump b
-  | SBreak _ | SContinue _ | SReturn _ => true
+  | SBreak _ | SContinue _ | SReturn _ | SThrow _ => true
   | _ => false
   end.
 
@@ -36,6 +36,7 @@ Fixpoint one_default (s : stmt) {struct s} : bool :=
   | SIf _ t ei e => one_default t && one_default_elifs ei && one_default e
   | SWhile _ b | SDoWhile b _ | SFor _ _ _ b | SForeach _ _ _ b => one_default b
   | SSwitch _ cl => (count_default cl <=? 1)%nat && one_default_clauses cl
+  | STry b cs f => one_default b && one_default_catches cs && one_default f
   | _ => true
   end
 with one_default_elifs (l : elifs) {struct l} : bool :=
@@ -44,7 +45,9 @@ with one_default_clauses (l : clauses) {struct l} : bool :=
   match l with
   | CLNil => true
   | CLCase _ b r | CLDefault b r => one_default b && one_default_clauses r
-  end.
+  end
+with one_default_catches (l : catches) {struct l} : bool :=
+  match l with CTNil => true | CTCons _ _ b r => one_default b && one_default_catches r end.
 
 (* no fall-through anywhere in [s]; when [m] (= we are in the main script) no static either *)
 Fixpoint clean_stmt (m : bool) (s : stmt) {struct s} : bool :=
@@ -54,6 +57,7 @@ Fixpoint clean_stmt (m : bool) (s : stmt) {struct s} : bool :=
   | SWhile _ b | SDoWhile b _ | SFor _ _ _ b | SForeach _ _ _ b => clean_stmt m b
   | SSwitch _ cl => clean_clauses m cl
   | SStatic _ _ => negb m
+  | STry b cs f => clean_stmt m b && clean_catches m cs && clean_stmt m f
   | _ => true
   end
 with clean_elifs (m : bool) (l : elifs) {struct l} : bool :=
@@ -63,7 +67,9 @@ with clean_clauses (m : bool) (l : clauses) {struct l} : bool :=
   | CLNil => true
   | CLCase _ b r | CLDefault b r =>
       (match r with CLNil => true | _ => ends_jump b end) && clean_stmt m b && clean_clauses m r
-  end.
+  end
+with clean_catches (m : bool) (l : catches) {struct l} : bool :=
+  match l with CTNil => true | CTCons _ _ b r => clean_stmt m b && clean_catches m r end.
 
 Definition is_main (fn : string) : bool := String.eqb fn "".
 
